@@ -260,7 +260,7 @@ impl Property for C06 {
     fn phases(&self, tier: Tier) -> Vec<Phase<C06Case>> {
         vec![Phase::Random {
             name: "configurations",
-            cases: tier.pick(4_000, 80_000),
+            cases: tier.pick(4_000, 300_000),
             strat: Arc::new(|| {
                 config_any_reuse(CfgParams { max_files: 8, sizes: size_small(), comp: comp_mixed(), sign_prob: 0.15, file_kinds: true, force_large_prob: 0.0, rich_meta: true })
                     .prop_map(|mut c| {
